@@ -45,6 +45,8 @@ def configs(tier):
                     for weights in (('none', 'both') if entry != 'fast_nonMarkov_SIR' else ('none',)):
                         if weights == 'both' and (n > 3 or len(graphs.ALL[g][1]) == 0):
                             continue
+                        if weights == 'both' and g == 'K3' and len(I0) == 1 and tier == 'quick':
+                            continue    # >3000 weight-order paths: thorough tier only
                         for tmax in ('inf', 'sym'):
                             if tmax == 'sym' and (full or weights != 'none' or R0):
                                 continue
@@ -52,6 +54,10 @@ def configs(tier):
                             if R0:
                                 tags.append('R0')
                             c = dict(entry=entry, graph=g, I0=I0, R0=R0, full=full, weights=weights, tmax=tmax, tags=tags)
+                            if weights != 'none' and entry == 'Gillespie_SIR' and n > 2:
+                                # the real rejection loop is run on the 2-node graphs (and in C16); on larger graphs
+                                # it is replaced by the logged weighted choice to keep the path tree finite and small
+                                c['wstub'] = True
                             if entry == 'fast_nonMarkov_SIR':
                                 c['ties'] = True
                             out.append(c)
